@@ -53,8 +53,16 @@ def apply_variant(root: str, v: Variant) -> Optional[str]:
     return new
 
 
-def run_variant(pid: str, root: str, v: Variant, tier: str = "quick"):
-    """Returns (status, findings) with status in detected/missed/stale."""
+QUIET = "QUIET"  # rule name of a behaviour-preserving variant: the check must stay silent on it
+
+
+def run_variant(pid: str, root: str, v: Variant, tier: str = "quick", baseline=None):
+    """Returns (status, findings) with status in detected/missed/stale.
+
+    A variant whose rule is ``QUIET`` is a behaviour-preserving edit (renamed local, split
+    assignment, extracted helper ...): it is 'detected' (= passes) when the run reports
+    nothing beyond the findings of the unchanged tree (``baseline`` = their keys), and
+    'missed' (= a false alarm of the checker) otherwise, including on an analysis error."""
     new = apply_variant(root, v)
     if new is None:
         return "stale", []
@@ -84,9 +92,19 @@ def run_variant(pid: str, root: str, v: Variant, tier: str = "quick"):
         except AnalysisError as e:
             # a variant that removes an anchor is "detected" as analysis error only
             # if the variant says so
+            if v.rule == QUIET:
+                return "missed", [f"false alarm (analysis error) on a behaviour-preserving edit: {e}"]
             if v.rule == "ANALYSIS-ERROR":
                 return "detected", [str(e)]
             return "missed", [f"analysis error instead of finding: {e}"]
+        if v.rule == QUIET:
+            if baseline is None:
+                base = Check(pid, Repo(root), tier)
+                base.in_selftest = True
+                mod.run(base)
+                baseline = {f.key for f in base.findings}
+            extra = [f for f in chk.findings if f.key not in baseline]
+            return ("missed" if extra else "detected"), [f.to_dict() for f in extra]
         hits = [f for f in chk.findings if f.rule == v.rule and (v.construct is None or v.construct in f.construct or v.construct in f.detail)]
         return ("detected" if hits else "missed"), [f.to_dict() for f in chk.findings]
     finally:
@@ -97,10 +115,10 @@ def run_variant(pid: str, root: str, v: Variant, tier: str = "quick"):
 
 
 def _job(args):
-    pid, root, idx = args
+    pid, root, idx, baseline = args
     mod = importlib.import_module(f"sa.rules.{pid.lower()}")
     v = mod.VARIANTS[idx]
-    status, findings = run_variant(pid, root, v)
+    status, findings = run_variant(pid, root, v, baseline=baseline)
     return idx, status, [f if isinstance(f, str) else f"{f['rule']} {f['construct']} :: {f['detail']}" for f in findings][:6]
 
 
@@ -111,15 +129,16 @@ def run_for(pid: str, chk: Check, jobs: int = 16) -> None:
         return
     root = chk.repo.root
     results = []
+    baseline = {f.key for f in chk.findings}
     needs_files = getattr(mod, "SELFTEST_NEEDS_FILES", False)
     if len(variants) > 3 or needs_files:
         import multiprocessing as mp
 
         ctx = mp.get_context("fork")
         with ctx.Pool(min(jobs, len(variants))) as pool:
-            results = pool.map(_job, [(pid, root, i) for i in range(len(variants))])
+            results = pool.map(_job, [(pid, root, i, baseline) for i in range(len(variants))])
     else:
-        results = [_job((pid, root, i)) for i in range(len(variants))]
+        results = [_job((pid, root, i, baseline)) for i in range(len(variants))]
     detected = stale = 0
     missed = []
     for idx, status, findings in results:
@@ -136,8 +155,10 @@ def run_for(pid: str, chk: Check, jobs: int = 16) -> None:
         "stale": stale,
         "missed": [v.name for v, _ in missed],
         "names": [f"{v.name} -> {v.rule}" for v in variants],
+        "quiet_variants": sum(1 for v in variants if v.rule == QUIET),
     }
-    chk.note(f"self-test: {detected}/{len(variants)} seeded variants detected, {stale} stale.")
+    nq = sum(1 for v in variants if v.rule == QUIET)
+    chk.note(f"self-test: {detected}/{len(variants)} seeded variants behaved as expected ({len(variants) - nq} breaking edits reported, {nq} behaviour-preserving edits left quiet), {stale} stale.")
     print(f"self-test {pid}: {detected}/{len(variants)} detected, {stale} stale, {len(missed)} missed")
     # A stale variant on a tree that already violates the property is expected
     # (the edited line may be the one that changed); only complain about misses
